@@ -401,8 +401,9 @@ def enum_reproducible_all_kinds(tier):
         for c in enum_purity_all_kinds(tier):
             # k odd: classifiers were trained before on the same panel with flipped labels (and
             # without exact duplicates, which make some dictionary classifiers fail at apply time)
+            # k >= 2: integer-valued observations (counts)
             yield dict(c, order=[0, 1 + (k % 2)], seed=c["seed"] + 101 * k, rs=c["rs"] + k, values=c["values"][k:] + c["values"][:k],
-                       as_frame=c["as_frame"] and k % 2 == 0)
+                       as_frame=c["as_frame"] and k % 2 == 0, int_valued=k >= 2)
 
 
 def subchecks():
